@@ -589,6 +589,13 @@ def mon_C12(lines, c):
             obs[l.inst] = l
             ser = l.f.get("ser")
             if ser:
+                # "writes nothing beyond the buffer's declared bit capacity": SERIAL_BITS = 1 + bitWidth(n); the harness hands save() a buffer
+                # pre-filled with 0xEE, so a byte still reading 0xEE everywhere means save() did not write the buffer at all
+                bits = 1 + c["n"].bit_length(); by = bytes.fromhex(ser)
+                if len(by) != (bits + 7) // 8: return idx, "save() filled %d bytes, %d bits need %d" % (len(by), bits, (bits + 7) // 8)
+                if all(b == 0xEE for b in by): return idx, "save() left the caller's buffer untouched (still the 0xEE fill): %s" % ser
+                for pos in range(bits, 8 * len(by)):
+                    if by[pos // 8] >> (pos % 8) & 1: return idx, "save() set bit %d, beyond the declared capacity of %d bits: %s" % (pos, bits, ser)
                 key = (l.f["active"], l.f["on"])
                 if ser in sers and sers[ser] != key: return idx, "two different activity states %s and %s serialize to the same buffer %s" % (sers[ser], key, ser)
                 for s2, k2 in sers.items():
